@@ -572,7 +572,7 @@ struct BufferIterator {
     size_t sz_elem;
 };
 
-static bool buf_iter_next(struct BufferIterator *iter, void *out) {
+static int32_t buf_iter_next(struct BufferIterator *iter, void *out) {
     if (iter->i >= iter->size) return 1;
     memcpy(out, iter->buf + iter->i++ * iter->sz_elem, iter->sz_elem);
     return 0;
